@@ -286,15 +286,20 @@ def read_env(src, expr, skip_envs=(), tolerance=0, mode=MODE_NON_MATH):
         # parse ahead only when the command is an \end: parsing every command
         # twice doubles the work at each level of nesting
         if src.peek().category == TC.Escape and src.peek(1) == 'end':
-            name, args = make_read_peek(read_command)(
-                src, skip=1, tolerance=tolerance, mode=mode)
+            # read \end and its name ahead, and remember how many tokens
+            # they take: not always five (\end{}, \end<newline>{a}, \end{\a})
+            start = src.position
+            name, args = read_command(
+                src, 1, 0, skip=1, tolerance=tolerance, mode=mode)
+            end_length = src.position - start
+            src.backward(end_length)
             break
         contents.append(read_expr(src, skip_envs=skip_envs, tolerance=tolerance, mode=mode))
     error = not src.hasNext() or not args or args[0].string != expr.name
     if error and tolerance == 0:
         unclosed_env_handler(src, expr, src.peek((0, 6)))
     elif not error:
-        src.forward(5)
+        src.forward(end_length)
     expr.append(*contents)
     return expr
 
